@@ -249,6 +249,23 @@ func ruleC13b(c *Ctx) []*report.Result {
 // handsOutWithoutCopy: fn returns a value derived from the receiver's buf
 // slice by ChangeType only, or converts the address of buf to unsafe.Pointer.
 func handsOutWithoutCopy(fn *ssa.Function) bool {
+	return handsOut(fn, 0)
+}
+
+func handsOut(fn *ssa.Function, depth int) bool {
+	// through a helper of the same receiver that does
+	if depth < 3 && len(fn.Params) > 0 {
+		for _, b := range fn.Blocks {
+			for _, ins := range b.Instrs {
+				if call, ok := ins.(*ssa.Call); ok {
+					g := call.Common().StaticCallee()
+					if g != nil && g != fn && g.Blocks != nil && len(call.Common().Args) > 0 && call.Common().Args[0] == ssa.Value(fn.Params[0]) && g.Signature.Recv() != nil && g.Signature.Results().Len() > 0 && handsOut(g, depth+1) {
+						return true
+					}
+				}
+			}
+		}
+	}
 	isBufLoad := func(v ssa.Value) bool {
 		u, ok := v.(*ssa.UnOp)
 		if !ok {
@@ -284,4 +301,44 @@ func handsOutWithoutCopy(fn *ssa.Function) bool {
 		}
 	}
 	return false
+}
+
+func init() { register("C09.h", ruleC09h) }
+
+// ruleC09h: selecting the mode already in force is the identity. The mode
+// setter is how the writer layer separates payloads; escaping is deferred to
+// the moment the mode really changes (or the buffer is finalised) so that a
+// payload split over several writes is escaped as a whole. A mode "change" to
+// the current mode that validated, closed or re-opened anything would cut a
+// payload at that point (a marker or a multi-byte character split across two
+// writes of the same side is then escaped piecewise).
+func ruleC09h(c *Ctx) []*report.Result {
+	a := c.ABuf()
+	r := report.NewResult("C09.h", "the mode setter of Buffer (the exported pointer-receiver method taking an OutputMode), called with the mode already in force, writes nothing: for every entry configuration the receiver is untouched, pending bytes stay pending", 4)
+	n := 0
+	for _, root := range a.Roots {
+		if root.Value || root.Sum == nil || len(root.Args) != 2 || len(root.Fn.Params) != 2 {
+			continue
+		}
+		if namedOf(root.Fn.Params[1].Type()) != pkgBuffer+".OutputMode" {
+			continue
+		}
+		m, ok := constInt(root.Args[1])
+		if !ok || m != root.Entry.Mode {
+			continue
+		}
+		for _, o := range root.Sum.SortedOutcomes() {
+			n++
+			s, mk, vu, dirty, ok := readBuf(o.Heap, "in0", "")
+			if ok && dirty == "F" && s == root.Entry && mk == "" && vu == "ok" {
+				r.Ok(fmt.Sprintf("%s(%s) [%s]: identity", root.Fn.Name(), modeNames[m], root.Entry))
+			} else {
+				r.Fail(shortFn(root.Fn.String())+" / same mode", c.P.Pos(root.Fn.Pos()), fmt.Sprintf("selecting the mode already in force changes the buffer: exit [%s dirty=%s mk=%s vu=%s] — the pending payload is cut at this point", s, dirty, mk, vu), nil, "entry: "+root.Entry.String())
+			}
+		}
+	}
+	if n == 0 {
+		r.Undecide("no mode setter called with the current mode among the A-buf roots")
+	}
+	return []*report.Result{r}
 }
